@@ -115,6 +115,10 @@ class Run:
         self.prop, self.tier, self.seed = prop, tier, seed
         self.t0 = time.time()
         self.build = os.path.join(os.environ.get('VERIF_BUILD_DIR') or os.path.join(VERIF, 'build'), prop)      # VERIF_BUILD_DIR: maintenance runs against scratch copies of the repository (tools/all_seeds_par.sh)
+        # two runs of ONE property (say its quick and its thorough command at the same time) share this directory: the second waits for the first
+        # (thirteenth round: a quick and a thorough run of C14 started together deleted each other's generated files and both reported broken obligations)
+        os.makedirs(os.path.dirname(self.build), exist_ok=True)
+        self._proplock = open(self.build + '.lock', 'w'); fcntl.flock(self._proplock, fcntl.LOCK_EX)
         shutil.rmtree(self.build, ignore_errors=True)
         self.dyn = os.path.join(self.build, 'dyn')
         os.makedirs(self.dyn)
